@@ -12,6 +12,7 @@ theorem reset_wiring (s : FastStochastic F) (mn' : Minimum F) (mx' : Maximum F)
     (h1 : s.minimum.reset = some mn') (h2 : s.maximum.reset = some mx') :
     s.reset = some { s with minimum := mn', maximum := mx' } := by
   unfold reset
+  try simp only [gen_helper]
   simp [h1, h2]
 
 /-- `reset` rebuilds exactly the state `new` builds -/
